@@ -49,6 +49,8 @@ func patPath(p string) *Path {
 		return P("F.Arr[0]")
 	case "AI":
 		return P("F.Arr").With(Step{Sel: P("F.I"), SelT: "i"})
+	case "AJ": // out of range when I = 1
+		return P("F.Arr").With(Step{Sel: &Bin{Op: "+", L: P("F.I"), R: CI(1)}, SelT: "i"})
 	}
 	panic("pattern path " + p)
 }
@@ -74,6 +76,7 @@ func cmdPatternTraces(args []string) {
 	casesOut := fs.String("cases", "cases.ndjson", "case file")
 	seed := fs.Int64("seed", 1, "seed")
 	worlds := fs.Int("worlds", 3, "fact states per pattern")
+	flagp := fs.Float64("flagp", 0, "probability of ReturnErrOnFailedRuleEvaluation")
 	variants := []string{"fresh", "reloaded", "second", "multi"}
 	fs.Parse(args)
 	r := rand.New(rand.NewSource(*seed))
@@ -139,7 +142,7 @@ func cmdPatternTraces(args []string) {
 			c := &Case{ID: id, GRL: prog.GRL(), Parts: prog.Parts(2), RulesJS: rules, Variant: variants[r.Intn(len(variants))], Profile: "pattern", Listener: 1,
 				Counted: json.RawMessage(`{"k":"none"}`), Other: &World{F: &Fact{X: bit(), I: bit(), Arr: []int64{bit(), bit()}, M: map[string]int64{"a": 0, "b": 0},
 					P: &Sub{}, Q: &Sub{}, Spare: &Sub{V: 7, S: "sp"}}, N: bit(), HasN: true},
-				Calls: []CallCfg{{Mode: "exec", World: w, Max: uint64(2 + r.Intn(3)), CancelAt: -1}}}
+				Calls: []CallCfg{{Mode: "exec", World: w, Max: uint64(2 + r.Intn(3)), CancelAt: -1, Flag: r.Float64() < *flagp}}}
 			id++
 			var buf bytes.Buffer
 			em := NewEmitter(&buf)
